@@ -115,9 +115,9 @@ def r4_ok_wrap(chk):
     def mk():
         return Evaluator(repo, IMPL_FILES, opaque={"quote_action", "struct_main_code_block", "enum_main_code_block"})
     t = {}
-    for name in ("main_code_block", "main_code_block_ok"):
-        fi = repo.fn(EXPAND, name)
-        for lf in explore(mk, lambda ev: ev.run_fn(fi, ev.sym_params(fi))):
+    from ..skeleton import body_builders
+    for name, fi, preset_ in body_builders(repo):
+        for lf in explore(mk, lambda ev: ev.run_fn(fi, {**ev.sym_params(fi), **preset_})):
             if lf.get("ctx.struct_attr.quick_return") == "None":
                 t[(name, lf.get("ctx.input"), lf.get("ctx.has_post_init"))] = vkey(lf.value)
     for inp in ("Struct", "Enum"):
@@ -125,7 +125,7 @@ def r4_ok_wrap(chk):
         for pi in (False, True):
             got = t.get(("main_code_block_ok", inp, pi))
             exp = base if pi else ("«Ok (‹" + str(base) + "›)»")
-            chk.expect("R4", f"ok-wrap[{inp},post_init={pi}]", base is not None and got == exp, EXPAND, repo.fn(EXPAND, "main_code_block_ok").line,
+            chk.expect("R4", f"ok-wrap[{inp},post_init={pi}]", base is not None and got == exp, EXPAND, body_builders(repo)[1][1].line,
                        "fallible body is not Ok(<infallible body>) (or is wrapped although the post-init skeleton adds Ok(obj))", expected=exp, found=got)
 
 
@@ -226,9 +226,10 @@ def r6_assign_only(chk):
     from ..pe import Evaluator, explore, vkey
     from ..tables import IMPL_FILES
     holders = [fi for fi in repo.fns(EXPAND) if any(m["k"] == "Macro" and m["last"] == "quote" and re.search(r"\*\s*other\s*=", m["src"]) for m in walk(fi.body))]
-    for name in ("main_code_block", "main_code_block_ok"):
-        if not any(h.name == name for h in holders):
-            holders.append(repo.fn(EXPAND, name))
+    from ..skeleton import body_builders
+    for _nm, bf, _pr in body_builders(repo):
+        if not any(h.name == bf.name for h in holders):
+            holders.append(bf)
     for fi in holders:
         key = f"{fi.qual}/overwrite-only-for-return"
         try:
